@@ -40,10 +40,13 @@ type Case struct {
 	Ops     []Op         `json:"ops"`
 }
 
-var keys = []string{"a", "b", "sub", "l", "c", "a", "b"}
+var keys = []string{"a", "b", "sub", "l", "c", "a", "b", "0", "1"} // numeric names: nodes with named and indexed settings
 var opNames = []string{"a", "b", "sub.a", "l.1.a", "a.b", "0.a", "sub", "l", "l.0", "c", "sub.l.1", "w.a", "w.sub.a", "r1"}
 
-const nEmbed = 15
+const nEmbed = 19
+
+// rebranded is a type of its own with the layout of ucfg.Config (a legal representation of a configuration)
+type rebranded ucfg.Config
 
 func genCase(t *rapid.T) Case {
 	cfg := &gen.TreeCfg{Depth: 3, Width: 4, Keys: keys, NoFloat: true}
@@ -118,8 +121,20 @@ func embed(kind int, s *ucfg.Config) (interface{}, bool) {
 		return overlapHolder{C: s, M: map[string]interface{}{"sub": map[string]interface{}{"zz": 1, "l": []interface{}{nil, nil, "x"}}}}, true
 	case 13:
 		return overlapHolder2{M: map[string]*ucfg.Config{"sub": s}, In: inlineStruct{Sub: map[string]interface{}{"zz": true}}}, true
-	default:
+	case 14:
 		return map[string]interface{}{"l": []interface{}{s}, "l.0.zz": 1, "l.0": map[string]interface{}{"q": 2}}, true
+	case 15:
+		// unusual but legal representations of the configuration itself, at the top level
+		return &s, false
+	case 16:
+		var i interface{} = s
+		return &i, false
+	case 17:
+		return (*rebranded)(s), false
+	default:
+		r := (*rebranded)(s)
+		var i interface{} = &r
+		return map[string]interface{}{"sub": i, "l": []interface{}{(*rebranded)(s)}}, true
 	}
 }
 
